@@ -43,6 +43,11 @@ Judge(e) ==
       ELSE "ok"
   ELSE IF e.a = "SaveLoadFresh" THEN
       (IF ~e.same THEN "reload_differs" ELSE "ok")
+  ELSE IF e.a = "Clone" THEN
+      (IF e.error # "" THEN "ok"          \* the harness could not copy this model (unpicklable closure): no verdict
+       ELSE IF ~e.modesSame THEN "clone_mode_changed"
+       ELSE IF ~e.stateSame THEN "clone_state_differs"
+       ELSE IF ~e.same THEN "clone_differs" ELSE "ok")
   ELSE "ok"
 
 Step ==
@@ -56,6 +61,7 @@ Step ==
           \/ (e.a = "Freeze" /\ Freeze)
           \/ (e.a = "TrainStep" /\ TrainStep)
           \/ (e.a = "SaveLoadFresh" /\ SaveLoadFresh)
+          \/ (e.a = "Clone" /\ Clone(e.how))
           \/ (e.a = "Call" /\ Call(e.op, e.ik))
 
 Done == l = Len(T) + 1 /\ UNCHANGED tvars
